@@ -14,6 +14,7 @@ Histories with Clean/Save/Load are covered by the correspondence (model = code o
 history) and the monitor; the invariant across consolidation is not yet a theorem (`_partial`).
 -/
 import BRV.Proofs.Longest
+import BRV.Proofs.RepoWF
 
 namespace BRV.Repo
 
@@ -370,6 +371,55 @@ theorem C01_tip_maximal_submissions (r : Repo) (hs : List (Hdr × Bool)) (h0 : T
     simp only [submitAll, List.foldl_cons]
     exact ih _ (C01_tipmax_step r x.1 x.2 h0 h1 h2) h3
 
+/-- no submission of the history triggers the automatic clean (checked at the state it is submitted to). -/
+def NoAutoClean : Repo → List (Hdr × Bool) → Prop
+  | _, [] => True
+  | r, x :: xs =>
+    (∀ pb ph lst, precheck r x.1 x.2 = .inr (pb, ph, lst) →
+      Int.tmod ((r.br pb).height + 1) (Facts.autoCleanModulus : Int) ≠ 0) ∧
+    NoAutoClean (processHeader r x.1 x.2).1 xs
+
+theorem linkWF_submitAll (r : Repo) (hs : List (Hdr × Bool)) (hw : LinkWF r.arena) (hq : NoAutoClean r hs) :
+    LinkWF (submitAll r hs).arena := by
+  induction hs generalizing r with
+  | nil => exact hw
+  | cons x xs ih =>
+    obtain ⟨h1, h2⟩ := hq
+    simp only [submitAll, List.foldl_cons]
+    exact ih _ (linkWF_processHeader r x.1 x.2 hw h1) h2
+
+/-- **C01 (sentence 2, submission histories): the reported headers are the tip's ancestry.** After
+    ANY finite history of submissions from a well-linked state (e.g. genesis only) — whatever the
+    verdicts, including the internal-error ones —, whenever the best chain's headers at heights
+    `k` and `k − 1` are held, the header at `k` names the header at `k − 1` as its previous block:
+    `Header(k).PrevBlock = Hash(k − 1)`, across branch boundaries of forks of forks included. -/
+theorem C01_chain_linked_submissions (r : Repo) (hs : List (Hdr × Bool)) (hw : LinkWF r.arena)
+    (hq : NoAutoClean r hs) (k : Int) (a b : HData)
+    (ha : (submitAll r hs).at (submitAll r hs).longest k = some a)
+    (hb : (submitAll r hs).at (submitAll r hs).longest (k - 1) = some b) :
+    a.hdr.prev = b.hdr.id := by
+  have hw' := linkWF_submitAll r hs hw hq
+  have hlen : (submitAll r hs).longest < (submitAll r hs).arena.length := atHeight_some_lt _ _ _ _ _ ha
+  rw [Repo.at_eq_atH _ hw'.dec _ hlen] at ha hb
+  exact atH_linked _ hw' _ k a b ha hb
+
+/-- the same for ANY tracked branch (side branches are linked chains down to genesis too). -/
+theorem C01_every_branch_linked (r : Repo) (hs : List (Hdr × Bool)) (hw : LinkWF r.arena)
+    (hq : NoAutoClean r hs) (bi : Nat) (k : Int) (a b : HData)
+    (ha : (submitAll r hs).at bi k = some a) (hb : (submitAll r hs).at bi (k - 1) = some b) :
+    a.hdr.prev = b.hdr.id := by
+  have hw' := linkWF_submitAll r hs hw hq
+  have hlen : bi < (submitAll r hs).arena.length := atHeight_some_lt _ _ _ _ _ ha
+  rw [Repo.at_eq_atH _ hw'.dec _ hlen] at ha hb
+  exact atH_linked _ hw' _ k a b ha hb
+
+/-- what `Header(k)` / `Hash(k)` return while the height is held in memory is that lookup. -/
+theorem C01_headerAt_in_memory (r : Repo) (k : Int) (d : HData) (hk : k ≤ (r.br r.longest).height)
+    (hd : r.at r.longest k = some d) : headerAt r k = .ok d.hdr := by
+  unfold headerAt
+  have : ¬ (k > (r.br r.longest).height) := by omega
+  simp only [this, ↓reduceIte, hd]
+
 /-! ### the extracted shapes the model relies on -/
 
 /-- `ProcessHeader` and every reader hold the repository mutex for their whole body, so concurrent
@@ -387,6 +437,9 @@ def exRepoC01 : Repo :=
                 offset := 1, headers := [{ hdr := { id := 0, prev := 99, bits := 0x1d00ffff, time := 1 }, work := 4295032833 }],
                 hmap := [(0, 0)] }],
     branches := [0], longest := 0, heights := [(0, 0)], disableDifficulty := true }
+
+example : LinkWF exRepoC01.arena :=
+  linkWF_single _ rfl rfl { hdr := { id := 0, prev := 99, bits := 0x1d00ffff, time := 1 }, work := 4295032833 } rfl rfl
 
 example : TipMax exRepoC01 := by
   refine ⟨by decide, 4295032833, by decide, ?_⟩
